@@ -230,6 +230,9 @@ func inferCAInfoFromKey(chipAuthPubKeyInfos []document.ChipAuthenticationPublicK
 			return nil, nil, fmt.Errorf("[inferCAInfoFromKey] inferCAInfoFromKeyProtocol error: %w", err)
 		}
 
+		// reference the key the info was inferred from: with several keys on the chip the reference is mandatory
+		caInfo.KeyId = keyInfo.KeyId
+
 		caAlgInfo, err = algInfo(caInfo.Protocol)
 		if err != nil {
 			return nil, nil, fmt.Errorf("[inferCAInfoFromKey] algInfo error: %w", err)
